@@ -178,7 +178,7 @@ pub fn assemble_with(pki: &Pki, c: &Value, content: &[u8]) -> (Vec<u8>, String) 
     };
     let crl = id_crl(pki, if g("crlsig") == "peer" { peer } else { other }, peer, this, next,
                      match g("crlaki") { "peer" => Some(peer), "other" => Some(other), _ => None }, &revoked);
-    let bytes = signed_data(&SignedDataParts { content_type: der::oid(OID_CT_PROTOCOL), content, attrs, certs: vec![ee], crls: vec![crl], sid, signature });
+    let bytes = signed_data(&SignedDataParts { content_type: der::oid(OID_CT_PROTOCOL), content, attrs, certs: vec![ee], crls: vec![crl], sid, signature, algform: c["alg"].as_str().unwrap_or("aa").to_string() });
     (bytes, if g("key") == "peer" { peer.into() } else { other.into() })
 }
 
